@@ -27,18 +27,29 @@ def run(tier: str) -> int:
     small = H.default_events(uni, "small")
     extra_adds = [("add", k) for k in ("x<u2", "x==5", "x+1==5", "!c", "x==6")]
     ev_repl = [e for e in small if e not in {("add", "y>u6"), ("add", "x==1|x==6"), ("downsize",), ("eval", "x", 2, "none"), ("max", "x", "u", "x==6"), ("min", "x", "s", "y<u2"), ("max", "x", "s", "y<u2")}] + extra_adds
+    if tier == "quick":  # the full alphabet (32 events, 57 000 histories at depth 3) is kept for the thorough tier
+        drop = {("add", "c"), ("add", "x!=0"), ("eval", "x", 9, "y>u6"), ("eval", "x+y", 9, "none"), ("beval", "x,y", 2, "y<u2"), ("min", "x", "s", "none"), ("max", "x", "u", "y<u2"), ("sol", "x+y", 7, "none"), ("isfalse", "x==0", "none"), ("pickle",), ("add", "!c")}
+        ev_repl = [e for e in ev_repl if e not in drop]
     ev_q = [
         e
         for e in small
         if e[0] in ("add", "branch", "simplify", "pickle")
         or e in (("sat", "none"), ("sat", "x==6"), ("eval", "x", 9, "none"), ("eval", "x", 9, "y>u6"), ("eval", "x+y", 9, "none"), ("min", "x", "u", "none"), ("max", "x", "s", "none"), ("min", "x", "u", "x==6"), ("max", "x", "u", "y<u2"), ("sol", "x", 5, "none"), ("beval", "x,y", 9, "none"))
-    ] + extra_adds[:3]
+    ] + extra_adds[:3] + [("min", "x", "s", "none"), ("max", "x", "s", "y<u2")]
+    # focused alphabets (from the seeded changes the first version missed)
+    ev_focus = [("add", "x==5"), ("add", "y==2"), ("add", "x<u2"), ("add", "x!=0"), ("eval", "x+y", 9, "none"), ("max", "x+y", "u", "none"), ("sol", "x+y", 7, "none"), ("min", "x", "u", "none"), ("branch",)]
+    ev_exact = [("add", "x<u5"), ("add", "x&1==0"), ("add", "x!=4"), ("add", "x+y==5"), ("eval", "x", 9, "none"), ("eval", "x", 2, "none"), ("eval", "x+y", 9, "none"), ("beval", "x,y", 9, "none"), ("min", "x", "u", "none"), ("max", "x", "s", "none"), ("sol", "x", 3, "none"), ("sat", "none")]
     if tier == "quick":
         plan = [
             ("SolverReplacement", {}, ev_repl, 3, 3, "", False),
             ("SolverHybrid", {}, ev_q, 3, 2, "exact"),
             ("SolverHybrid", {"exact_false": True, "approx": True}, ev_q, 3, 2, "exact=False"),
             ("SolverVSA", {"approx": True}, ev_q, 3, 2, ""),
+            # replacement-cache invalidation: add ; query a compound ; add ; query it again (judged against the
+            # exact oracle; histories that run into a listed SolverReplacement finding end there)
+            ("SolverReplacement", {}, ev_focus, 4, 3, "focus4", False),
+            # approximate_first with an explicit exact=True must still be exact
+            ("SolverHybridApprox", {"exact_true": True}, ev_exact, 3, 3, "approximate_first,exact=True"),
         ]
     else:
         plan = [
@@ -50,6 +61,8 @@ def run(tier: str) -> int:
             ("SolverHybridApprox", {"approx": True}, ev_q, 3, 3, "approximate_first"),
             ("SolverVSA", {"approx": True}, small + extra_adds, 3, 3, ""),
             ("SolverReplacementVSA", {"approx": True}, ev_q, 3, 3, ""),
+            ("SolverReplacement", {}, ev_focus, 5, 3, "focus5", False),
+            ("SolverHybridApprox", {"exact_true": True}, ev_exact, 4, 3, "approximate_first,exact=True"),
         ]
     for cls, cfg, events, depth, max_adds, tag, *rest in plan:
         t0 = time.time()
